@@ -20,6 +20,7 @@ On top of it the rqlite side is transcribed as timed runs:
   proved equal to), plus what each step observed.
 -/
 import RqModel.Model.LinRead
+import RqModel.Model.Linz
 namespace RqModel.ReadIndex
 open RqModel.LinRead (stepNames)
 
@@ -150,5 +151,42 @@ structure LinReadRun.Ok (E : Exec) (r : LinReadRun) : Prop where
   read_after : r.at "s.fsmTarget.Subscribe" ≤ r.tRead ∧ r.tRead ≤ r.tResp
   /-- the FSM only applies committed entries -/
   observed_committed : r.observed ≤ E.commitIdx r.node r.tRead
+
+open RqModel.Linz in
+/-- how a recorded client history `h` relates to an execution of the abstract cluster -/
+structure ModelHistory (E : Exec) (h : History) where
+  /-- the operations that were committed to the log (writes, strong reads), in log order -/
+  logOps : List Nat
+  /-- the linearizable reads answered after `q` of them had been applied -/
+  reads  : Nat → List Nat
+  pos    : Nat → Nat
+  logRun : Nat → LogOpRun
+  linRun : Nat → LinReadRun
+  log_ok : ∀ i ∈ logOps, (logRun i).Ok E ∧ (opAt h i).inv = (logRun i).tInv ∧
+      ∀ t, (opAt h i).resp = some t → t = (logRun i).tResp
+  log_sorted : logOps.Pairwise (fun a b => (logRun a).apply.index < (logRun b).apply.index)
+  read_ok : ∀ q, ∀ r ∈ reads q, (linRun r).Ok E ∧ (opAt h r).inv = (linRun r).tInv ∧
+      (opAt h r).resp = some (linRun r).tResp ∧ pos r = q ∧ q ≤ logOps.length ∧ r ∉ logOps
+  /-- `q` is the number of log operations the read's database state contains -/
+  read_pos : ∀ q, ∀ r ∈ reads q, ∀ j, j < logOps.length →
+      ((logRun (logOps.getD j 0)).apply.index ≤ (linRun r).observed ↔ j < q)
+  /-- the wait of waitForLinearizableRead (LinRead model): what is at or below the read index
+  has been applied -/
+  read_wait : ∀ q, ∀ r ∈ reads q, ∀ a ∈ logOps,
+      (logRun a).apply.index ≤ (linRun r).readIndex → (logRun a).apply.index ≤ (linRun r).observed
+  reads_nodup : ∀ q, (reads q).Nodup
+  /-- inside a block the reads are listed in invocation order -/
+  reads_sorted : ∀ q, (reads q).Pairwise (fun x y => (opAt h x).inv < (opAt h y).inv)
+  in_range : ∀ x, (x ∈ logOps ∨ ∃ q, x ∈ reads q) → x < h.length
+  complete : ∀ i, i < h.length → (opAt h i).resp ≠ none → i ∈ logOps ∨ ∃ q, q ≤ logOps.length ∧ i ∈ reads q
+  /-- the FSM is a deterministic state machine over the log: a read returns what the table
+  holds after the writes of the log prefix it saw -/
+  read_val : ∀ q, ∀ r ∈ reads q, ∃ k res, (opAt h r).kind = .read k res ∧
+      (runWrites h (logOps.take q) []).lookup k = res
+  log_val : ∀ j, j < logOps.length → ∀ k res, (opAt h (logOps.getD j 0)).kind = .read k res →
+      (runWrites h (logOps.take j) []).lookup k = res
+  /-- invocation precedes response -/
+  inv_lt_resp : ∀ i t, (opAt h i).resp = some t → (opAt h i).inv < t
+
 
 end RqModel.ReadIndex
